@@ -104,6 +104,15 @@ pub fn gen(tier: &str, r: &mut Rng) -> Vec<String> {
         }
         out.push(line(["model", "chain", "residue"][i % 3], &ops));
     }
+    // chains with many residues: an atom for a residue far back must still find it (however the lookup is organised)
+    for k in 0..budget(tier, 4, 40) {
+        let n = [300usize, 260, 520, 1030][k % 4];
+        let mut ops = Vec::new();
+        for j in 0..n { ops.push(Op { chain: "A".to_string(), rnum: j as i64, icode: None, name: "ALA".to_string(), alt: None, atom: mk_atom(j) }); }
+        for j in 0..8 { let back = r.below(n); ops.push(Op { chain: "A".to_string(), rnum: back as i64, icode: None, name: "ALA".to_string(), alt: None, atom: mk_atom(n + j) }); }
+        ops.push(Op { chain: "A".to_string(), rnum: 0, icode: None, name: "ALA".to_string(), alt: None, atom: mk_atom(n + 9) });
+        out.push(line(["model", "chain"][k % 2], &ops));
+    }
     // identifiers the constructors refuse (the guard of the theorems): the call must panic in both
     for (c, ic, nm) in [("", None, "ALA"), ("A", Some(" "), "ALA"), ("A", None, "  "), ("A\u{e9}", None, "ALA"), ("A", Some("\u{e9}"), "ALA"), ("A", None, "AL\u{7f}")] {
         let ops = vec![Op { chain: c.to_string(), rnum: 1, icode: ic.map(|s: &str| s.to_string()), name: nm.to_string(), alt: None, atom: mk_atom(0) }];
